@@ -54,6 +54,18 @@ def via_route(heap, route, rng):
             roots = [o for k, o in enumerate(objs) if not any((k + 1) in c['r'] for c in heap)]
             parsed = [Cell.one_from_boc(r.to_boc()) for r in roots]
             _, _, objs = ck.project(parsed)
+        elif route in ('boc_wh', 'boc_wh_wrong'):
+            # a foreign bag that stores hashes and depths next to the cells - the right ones, or (boc_wh_wrong) with one stored value
+            # altered: the parser may refuse that bag, but a cell it returns must report the hash of its content
+            import bockit as bk
+            roots = [o for k, o in enumerate(objs) if not any((k + 1) in c['r'] for c in heap)]
+            try:
+                parsed = [Cell.one_from_boc(bk.emit_with_hashes(r, 'all', corrupt=rng if route == 'boc_wh_wrong' else None)) for r in roots]
+            except Exception:
+                if route == 'boc_wh_wrong':
+                    return None
+                raise
+            _, _, objs = ck.project(parsed)
         elif route == 'copy':
             objs = [o.copy() for o in objs]
         elif route == 'slice':
@@ -102,6 +114,31 @@ def generate(tier, seed, ctx):
     for _ in range(12 if tier == 'quick' else 150):
         heap = ck.rand_heap(rng, rng.randint(5, 40), [0, 1, 2, 7, 8, 9, 31, 32, 33, 255, 256, 257, 511, 1016, 1022, 1023])
         out.append(via_route(heap, rng.choice(ROUTES), rng))
+    # bags with stored hashes (right and wrong ones)
+    for _ in range(30 if tier == 'quick' else 400):
+        heap = ck.rand_heap(rng, rng.randint(1, 6), [0, 1, 8, 9, 256, 1023])
+        out.append(via_route(heap, rng.choice(['boc_wh', 'boc_wh_wrong', 'boc_wh_wrong']), rng))
+    # cells whose hashes agree on a 32-bit window (first / last / inner four bytes): equality and dictionary keys are decided by
+    # the WHOLE hash.  Candidates are found by hashing 32-bit leaves with hashlib (input construction; TLC re-derives every hash)
+    import hashlib
+    seen = [dict() for _ in range(4)]
+    wins = [(0, 4), (28, 32), (4, 8), (14, 18)]
+    found = []
+    base = rng.getrandbits(31)
+    for v in range(base, base + (150000 if tier == 'quick' else 600000)):
+        v &= 0xFFFFFFFF
+        h = hashlib.sha256(b'\x00\x08' + v.to_bytes(4, 'big')).digest()
+        for k, (a, b) in enumerate(wins):
+            w = h[a:b]
+            if w in seen[k]:
+                found.append((seen[k][w], v))
+            else:
+                seen[k][w] = v
+    for a, b in found[:(12 if tier == 'quick' else 60)]:
+        bits = lambda x: [(x >> (31 - i)) & 1 for i in range(32)]
+        heap = [ck.acell(bits(a), []), ck.acell(bits(b), []), ck.acell([1, 0, 1], [1, 2])]
+        for route in ('builder', 'boc', 'copy'):
+            out.append(via_route(heap, route, rng))
     # a chain of depth exactly 1023 (the deepest valid cell), two references to the same child on the way
     chain = [ck.acell([1], [])]
     for k in range(1, 1024):
@@ -109,7 +146,7 @@ def generate(tier, seed, ctx):
     out.append(via_route(chain, 'builder', rng))
     if tier == 'thorough':
         out.append(via_route(chain, 'boc', rng))
-    return out
+    return [r for r in out if r is not None]
 
 
 def canary(r, rng):
